@@ -241,10 +241,21 @@ pub fn run(args: &Args) {
         // filter predicate, a parenthesis that is itself continued
         {
             let text2 = soup_with(&seq, Some((i % 14) as usize));
-            compare_tree(&mut rep, &text2, "enum-soup-bracket-operands");
+            let (o2, _) = compare_tree(&mut rep, &text2, "enum-soup-bracket-operands");
+            if o2 != Outcome::NotComparable && i % 3 == 0 {
+                let ctx2 = match (i / 3) % 4 {
+                    0 => format!("[{}, z]", text2),
+                    1 => format!("[z, {}]", text2),
+                    2 => format!("{{k: {}}}", text2),
+                    _ => format!("f({}, z)", text2),
+                };
+                compare_tree(&mut rep, &ctx2, "enum-soup-bracket-operands-in-context");
+            }
         }
         if o != Outcome::NotComparable {
-            let ctx = match i % 7 {
+            let ctx = match i % 9 {
+                7 => format!("[{}, z]", text),
+                8 => format!("f({})[{}]", text, text),
                 0 => format!("f(&{}, z)", text),
                 1 => format!("f(z, &{})", text),
                 2 => format!("f({}, z)", text),
